@@ -61,6 +61,14 @@ def coq_event(ev, txt_hex="", tick_to=None):
     if k == "peerPong": return f"(EPeerPong {b(ev[1])})"
     if k == "peerViolation": return f"(EPeerViolation {t})"
     if k == "peerInvalid": return f"(EPeerInvalid {t})"
+    if k == "beginMessage": return "EBeginMessage"
+    if k == "sendMessageFrame": return "ESendFrame"
+    if k == "endMessage": return "EEndMessage"
+    if k == "peerFrag": return f"(EPeerFrag {b(ev[1])} {b(ev[2])})"
+    if k == "peerHead": return "EPeerHead"
+    if k == "peerTail": return "EPeerTail"
+    if k in ("beginMessageFrame", "sendMessageFrameData", "sendPrepared"):
+        raise Unmodelled(f"event {k}: raw streaming / prepared-message API (oracle-only family)")
     if k in ("sendMessageSync", "sendChopped", "tickus"):
         raise Unmodelled(f"event {k}: the send queue is not in the Gallina model (oracle-only family)")
     if k == "tick": return f"(ETick {int(ev[1])})"
@@ -75,6 +83,8 @@ def coq_out(o):
     simple = {"http": "WHttp", "wdata": "WData", "wpong": "WPong", "lose": "Lose", "abort": "Abort", "cbopen": "CbOpen",
               "cbmessage": "CbMessage", "cbping": "CbPing", "cbpong": "CbPong"}
     if k in simple: return f"({t}, {simple[k]})"
+    if k == "whdr": return f"({t}, WHdr)"
+    if k == "wpayload": return f"({t}, WPayload {int(o[2])})"
     if k == "wping": return f"({t}, WPing {optN(o[2])})"
     if k == "wclose": return f"({t}, WClose OApi {optN(o[2])} {optoct(o[3])})"
     if k == "cbclose":
@@ -101,11 +111,15 @@ def canon_out(fw, outs):
 
 def coq_obs(fw, s):
     outs = canon_out(fw, s["out"])
-    seq = [o for o in outs if o[1] not in ("isopen", "isclosed")]
+    seq = [o for o in outs if o[1] not in ("isopen", "isclosed", "wsplitdone")]
     f = s["flags"]
     if f["ncr"] not in NCR: raise Unmodelled(f"wasNotCleanReason class {f['ncr']}")
     flags = [f["closedByMe"], f["failedByMe"], f["droppedByMe"], f["wasClean"], f["wasOpenTO"], f["wasCloseTO"],
-             f["wasDropTO"], f["pingPending"], s["state"] == "PROXY_CONNECTING"]
+             f["wasDropTO"], f["pingPending"], s["state"] == "PROXY_CONNECTING",
+             f["inMsg"] and s["state"] != "CLOSED", f["rxPartial"] and s["state"] != "CLOSED",
+             f["sendState"] != 0, f["sendState"] == 2]
+    if f["sendState"] == 3:
+        raise Unmodelled("send_state INSIDE_MESSAGE_FRAME")
     return "(mkObs %s [%s] %d %d %s %d [%s] [%s] %s %s %s %d)" % (
         b(s["applied"]), "; ".join(coq_out(o) for o in seq),
         sum(1 for o in outs if o[1] == "isopen"), sum(1 for o in outs if o[1] == "isclosed"),
@@ -170,12 +184,21 @@ def oracle(case, res, fw):
                 bad.append((f"{role}/{ev[0]}/ESCAPED/{o[2]}", f"step {i} {ev}: exception escaped to the framework: {o[2]} {o[3]}"))
             if k in ("badframe", "other"):
                 bad.append((f"{role}/{ev[0]}/malformed-output", f"step {i} {ev}: {o}"))
-            if gone and k in ("http", "wdata", "wping", "wpong", "wclose", "lose", "abort", "cbopen", "cbmessage", "cbping", "cbpong", "cbclose"):
-                bad.append((f"{role}/{k}-after-onClose", f"step {i} {ev}: {o} after the close notification"))
-            if i and steps[i - 1]["state"] == "CLOSED" and k in ("http", "wdata", "wping", "wpong", "wclose", "badframe"):
-                bad.append((f"{role}/write-after-CLOSED", f"step {i} {ev}: {o} written although the connection was already CLOSED"))
-            if sent_close and k in ("wdata", "wping", "wpong", "wclose"):
-                bad.append((f"{role}/{k}-after-close-frame", f"step {i} {ev}: {o} written after a close frame"))
+            if gone and k in ("http", "wdata", "wping", "wpong", "wclose", "whdr", "wpayload", "lose", "abort", "cbopen", "cbmessage", "cbping", "cbpong", "cbclose"):
+                bad.append(("sendPreparedMessage/no-state-guard" if ev[0] == "sendPrepared" else f"{role}/{k}-after-onClose", f"step {i} {ev}: {o} after the close notification"))
+            WR = ("http", "wdata", "wping", "wpong", "wclose", "whdr", "wpayload", "badframe")
+            who = "sendPreparedMessage/no-state-guard" if ev[0] == "sendPrepared" else None
+            if i and steps[i - 1]["state"] == "CLOSED" and k in WR:
+                bad.append((who or f"{role}/write-after-CLOSED", f"step {i} {ev}: {o} written although the connection was already CLOSED"))
+            if sent_close and k in WR[1:]:
+                bad.append((who or f"{role}/{k}-after-close-frame", f"step {i} {ev}: {o} written after a close frame"))
+            if k == "raised" and o[2] not in ("Disconnected", "Exception", "PayloadExceededError"):
+                bad.append((who or f"{role}/{ev[0]}/raised/{o[2]}", f"step {i} {ev}: API call raised {o[2]}"))
+            if k == "wsplitdone":
+                pl = o[3]
+                if not (pl in ("fr", "cc") or set(pl) <= {"x"}):
+                    bad.append(("streaming/frame-corrupted-by-interleaved-write", f"step {i} {ev}: the data frame begun with beginMessageFrame "
+                                f"was completed with payload {pl!r}: octets of another frame were written into it"))
             if k == "wclose":
                 close_frames += 1; sent_close = True
                 code, reason = o[2], o[3]
@@ -251,8 +274,10 @@ TICKS = [["tickrel", "next"], ["tickrel", 125], ["tickrel", 875], ["tickrel", 10
 def alphabet(cfg=None):
     """the full event alphabet of the quantifier; ticks are relative: to the next pending deadline, just short of a
     second, a full second (the driver resolves them to absolute times, which is what the model gets)"""
-    return ([["hs"], ["badhs"]] + CLOSE_VARIANTS + [["sendMessage"], ["sendPing"], ["sendPong"]] + PEER_CLOSE +
-            [["peerData"], ["peerPing"], ["peerPong", True], ["peerPong", False], ["peerViolation"], ["peerInvalid"]] +
+    return ([["hs"], ["badhs"]] + CLOSE_VARIANTS + [["sendMessage"], ["sendPing"], ["sendPong"],
+             ["beginMessage"], ["sendMessageFrame"], ["endMessage"]] + PEER_CLOSE +
+            [["peerData"], ["peerFrag", False, False], ["peerFrag", True, False], ["peerFrag", True, True], ["peerHead"], ["peerTail"],
+             ["peerPing"], ["peerPong", True], ["peerPong", False], ["peerViolation"], ["peerInvalid"]] +
             TICKS + [["peerDrop", True], ["peerDrop", False], ["ownDrop"]])
 
 
@@ -442,14 +467,18 @@ def run(ck):
                    "peer data, peer violation, tick to the next pending deadline, tick +1 s, peer TCP drop, delivery of our own "
                    "drop} x role x failByDrop (echoCloseCodeReason=True: one shorter); (2) the timeout grid closeHandshakeTimeout x "
                    "serverConnectionDropTimeout in {0,1,2} s x role x failByDrop x echo on all core sequences of length <= 2 (3) and a "
-                   "third of the grid one longer; (3) ALL sequences of length <= 2 (thorough 3) over the full 29-event alphabet "
-                   "{handshake ok/bad, sendClose x6 argument shapes, sendMessage/Ping/Pong, peer close valid/empty/1-octet/reserved "
-                   "code/bad UTF-8, peer data/ping/pong matching or not/violation/invalid payload, 4 kinds of tick, TCP drop clean/"
+                   "third of the grid one longer; (3) ALL sequences of length <= 2 (thorough 3) over the full 38-event alphabet "
+                   "{handshake ok/bad, sendClose x6 argument shapes, sendMessage/Ping/Pong, beginMessage/sendMessageFrame/endMessage, peer close valid/empty/1-octet/reserved "
+                   "code/bad UTF-8, peer data/first, middle and last fragment/frame head/frame tail/ping/pong matching or not/violation/invalid payload, 4 kinds of tick, TCP drop clean/"
                    "unclean, own drop}; (4) from CONNECTING (no handshake forced) all sequences of length <= 4 (5) over {handshake "
                    "ok/bad, sendClose, sendMessage, tick, drops} x openHandshakeTimeout {0,1,2} s; (5) random walks of length <= 12 "
                    "(16) over the full alphabet with auto-ping and start phases 0/125/375/1000/1875 ms mixed in; (7) boundary close codes {0,999,1000,1003..1007,1011..1016,2999,3000,4999,5000,5001,65535} from the "
                    "peer and through sendClose, alone and in pairs, x role x failByDrop x echo; (8) client behind an explicit proxy: all "
                    "sequences of length <= 3 (4) from PROXY_CONNECTING over {proxy 2xx / 403, handshake ok/bad, sendClose, ticks, drops}; "
+                   "(9) the streaming send API: all sequences of length <= 3 (4), and one longer after "
+                   "beginMessage, over {beginMessage, sendMessageFrame, endMessage, sendMessage, sendPing, sendClose, peer close, peer "
+                   "violation, peer ping, tick, own drop} x role x failByDrop; (10) ORACLE ONLY: beginMessageFrame / "
+                   "sendMessageFrameData used separately and sendPreparedMessage in every state; "
                    "(6) ORACLE ONLY (not in the "
                    "model): all sequences of length <= 4 (5) with 1..3 queued sends over {sendMessage(sync=True), sendFrame(chopsize=1), "
                    "sendMessage, sendClose x2, peer close, peer violation, tick 10 us, tick 20 us, tick 1 s, TCP drop, own drop}; every sequence on the "
@@ -521,6 +550,23 @@ def run(ck):
     proxy = [dict(cfg=base_cfg(role="client", proxy=True, openTO=o, t0=t0), events=evs) for o in (0, 1000, 2000) for t0 in (0, 375)
              for evs in seqs(PROXY, 3 if quick else 4, [])]
     ck.bump("family:boundary-codes", len(codes)); ck.bump("family:proxy", len(proxy))
+    # (9) every send API in every state, in particular the streaming API with the close beginning mid-message (modelled):
+    #     all sequences of length <= 4 (5) over the alphabet below, role x failByDrop
+    STREAM = [["beginMessage"], ["sendMessageFrame"], ["endMessage"], ["sendMessage"], ["sendPing"], ["sendClose", 1000, None],
+              ["peerClose", 1000, "6f6b"], ["peerViolation"], ["peerPing"], ["tickrel", "next"], ["ownDrop"]]
+    sroles = [base_cfg(role=r, failByDrop=f) for r in ("server", "client") for f in (True, False)]
+    stream = [dict(cfg=cfg, events=evs) for cfg in sroles for evs in seqs(STREAM, 3 if quick else 4, [["hs"]])]
+    stream += [dict(cfg=cfg, events=[["hs"], ["beginMessage"]] + evs[1:]) for cfg in sroles
+               for evs in seqs(STREAM, 3 if quick else 4, [["hs"]]) if len(evs) > 1]
+    # (10) ORACLE ONLY: the raw streaming calls (beginMessageFrame / sendMessageFrameData used separately) and
+    #      sendPreparedMessage, in every state
+    RAW = [["beginMessage"], ["beginMessageFrame", 2], ["sendMessageFrameData", 1], ["sendMessageFrameData", 2], ["endMessage"], ["sendPrepared"],
+           ["sendMessage"], ["sendClose", 1000, None], ["peerClose", 1000, "6f6b"], ["peerPing"], ["peerViolation"], ["peerDrop", True], ["ownDrop"]]
+    rawfam = [dict(cfg=cfg, events=evs, oracle_only=True) for cfg in sroles for evs in seqs(RAW, 3 if quick else 4, [["hs"]])
+              if any(e[0] in ("beginMessageFrame", "sendMessageFrameData", "sendPrepared") for e in evs)]
+    rawfam += [dict(cfg=cfg, events=[["hs"], ["beginMessage"], ["beginMessageFrame", 2]] + evs[1:], oracle_only=True) for cfg in sroles
+               for evs in seqs(RAW, 2 if quick else 3, [["hs"]]) if len(evs) > 1]
+    ck.bump("family:streaming", len(stream)); ck.bump("family:raw-streaming+prepared(oracle-only)", len(rawfam))
     # (6) the send queue (sync / chopped writes trickled out by _trigger/_send every _QUEUED_WRITE_DELAY = 10 us): NOT in
     #     the Gallina model; implementation against the property oracle only.  All sequences of length <= 4 (thorough 5)
     #     over the alphabet below that contain 1..3 queued sends, role x failByDrop
@@ -538,12 +584,12 @@ def run(ck):
     ck.exhaustive = False
     # model comparison (Coq) on a budgeted, deterministic sample of every family; everything on the independent oracle
     budget = 1200 if quick else 6000            # per framework
-    fam = [deep, gridded, full, conn, randoms, codes, proxy]
+    fam = [deep, gridded, full, conn, randoms, codes, proxy, stream]
     sample = list(corpus)
     for f in fam:
         sample += rng.sample(f, min(len(f), budget // len(fam)))
     correspondence(ck, "model", {"tx": sample, "aio": sample}, coq_limit=len(sample))
-    rest = syncfam + codes + proxy + deep + gridded + full + conn + randoms
+    rest = syncfam + rawfam + stream + codes + proxy + deep + gridded + full + conn + randoms
     correspondence(ck, "oracle", {"tx": rest[0::2], "aio": rest[1::2]}, coq_limit=0)
     for c in (corpus + randoms)[:4]:
         ck.sample(c)
